@@ -466,6 +466,17 @@ async fn run_with(c: Case, limit: u16, steps: Vec<Op>, write_hw: usize) -> Resul
             }
         }
     }
+    let mut late_send = false;
+    if c.hold_stop {
+        // an application that does not know yet starts one more send while the Stop notification is being handled: it is a
+        // pending send like any other and must be resolved by the teardown
+        let ev = app.events();
+        if ev.iter().any(|e| matches!(e, Ev::Stop(_))) && !ev.iter().any(|e| matches!(e, Ev::ControlExit { stop: true })) {
+            w.force_send(SendKind::Qos1);
+            w.eut.settle().await;
+            late_send = true;
+        }
+    }
     // let everything that waits on the application go on
     app.open_all();
     w.eut.settle().await;
@@ -602,6 +613,7 @@ async fn run_with(c: Case, limit: u16, steps: Vec<Op>, write_hw: usize) -> Resul
         (helped, "needed-peer-close"),
         (resolved_disc > 0, "futures-resolved-disconnected"),
         (c.hold_stop, "stop-held"),
+        (late_send, "send-started-while-stop-is-handled"),
         (ev.iter().any(|e| matches!(e, Ev::PubDrop { .. } | Ev::CtlDrop { .. })), "handler-cancelled"),
     ] {
         if on {
